@@ -646,12 +646,14 @@ def gen_const_chain(rng):
         s = "%s.iter().copied()" % lit
         de = True
         exact = True
+        klen = n
     elif src == "range":
         a, b = rng.randint(-2, 3), rng.randint(-2, 6)
         k = "%d..%d" % (a, b) if a >= 0 else "(%d)..%d" % (a, b)
         s = "(%d..%d)" % (a, b)
         de = True
         exact = True
+        klen = max(0, b - a)
     elif src == "range_inc":
         a, b = rng.randint(0, 3), rng.randint(0, 6)
         k = "%d..=%d" % (a, b)
@@ -665,37 +667,63 @@ def gen_const_chain(rng):
         s = "(%di32..).take(%d)" % (a, t)
         de = False
         exact = False
+    if src in ("range_inc", "range_from"):
+        klen = None
     kparts, sparts = [], []
     rev_used = False
     posdep = False
-    for _ in range(rng.randint(0, 4)):
-        m = rng.choice(["map", "filter", "filter_map", "take", "skip", "take_while", "skip_while", "enumerate", "zip", "flat_map", "rev"])
+    plan = [rng.choice(["map", "filter", "filter_map", "take", "skip", "take_while", "skip_while", "enumerate", "zip", "flat_map", "rev"])
+            for _ in range(rng.randint(0, 4))]
+    if rng.random() < 0.3:
+        # planted shape: a zip (equal lengths whenever the length is still known) somewhere before a rev
+        at = rng.randint(0, min(len(plan), 2))
+        plan[at:at] = ["zip_eq"] + (["map"] if rng.random() < 0.3 else []) + ["rev"]
+    for m in plan:
+        force_eq = m == "zip_eq"
+        if force_eq:
+            m = "zip"
         if m == "map":
             kparts.append("map(|x| x * 3 + 1)"); sparts.append(".map(|x| x * 3 + 1)")
         elif m == "filter":
-            kparts.append("filter(|x| *x % 2 == 0)"); sparts.append(".filter(|x| *x % 2 == 0)"); exact = False
+            kparts.append("filter(|x| *x % 2 == 0)"); sparts.append(".filter(|x| *x % 2 == 0)"); exact = False; klen = None
         elif m == "filter_map":
             kparts.append("filter_map(|x| if x % 3 == 0 { None } else { Some(x + 10) })")
-            sparts.append(".filter_map(|x| if x % 3 == 0 { None } else { Some(x + 10) })"); exact = False
+            sparts.append(".filter_map(|x| if x % 3 == 0 { None } else { Some(x + 10) })"); exact = False; klen = None
         elif m in ("take", "skip"):
             c = rng.randint(0, 4)
             kparts.append("%s(%d)" % (m, c)); sparts.append(".%s(%d)" % (m, c)); de = de and exact; posdep = True
+            if klen is not None:
+                klen = min(klen, c) if m == "take" else max(0, klen - c)
         elif m in ("take_while", "skip_while"):
             c = rng.randint(0, 9)
-            kparts.append("%s(|x| *x < %d)" % (m, c)); sparts.append(".%s(|x| *x < %d)" % (m, c)); de = False; exact = False
+            kparts.append("%s(|x| *x < %d)" % (m, c)); sparts.append(".%s(|x| *x < %d)" % (m, c)); de = False; exact = False; klen = None
         elif m == "enumerate":
-            if rev_used:
-                pass
             kparts.append("enumerate(), map(|(i, x)| i as i32 * 100 + x)")
             sparts.append(".enumerate().map(|(i, x)| i as i32 * 100 + x)")
             de = de and exact
             posdep = True  # numbering is order dependent: keep it away from a later rev in this batch
         elif m == "zip":
             c = rng.randint(0, 4)
-            kparts.append("zip(5..%d), map(|(a, b)| a * 7 + b)" % (5 + c)); sparts.append(".zip(5..%d).map(|(a, b)| a * 7 + b)" % (5 + c))
-            de = de and exact; posdep = True
+            equal = klen is not None and exact and (force_eq or rng.random() < 0.5)
+            if equal:
+                # same length on both sides: the pairing is the same from either end, so a later rev() is comparable with std
+                c = klen
+            arg = rng.choice(["range", "slice"])
+            if arg == "range":
+                ka = sa = "5..%d" % (5 + c)
+                deref = "b"
+            else:
+                vals = ", ".join("%di32" % rng.randint(0, 9) for _ in range(c))
+                lit = "[%s]" % vals if c else "[0i32; 0]"
+                ka = "&%s" % lit
+                sa = "%s.iter()" % lit
+                deref = "*b"
+            kparts.append("zip(%s), map(|(a, b)| a * 7 + %s)" % (ka, deref)); sparts.append(".zip(%s).map(|(a, b)| a * 7 + %s)" % (sa, deref))
+            if not equal:
+                de = de and exact; posdep = True
+                klen = min(klen, c) if klen is not None else None
         elif m == "flat_map":
-            kparts.append("flat_map(|x| x..x + 2)"); sparts.append(".flat_map(|x| x..x + 2)"); exact = False
+            kparts.append("flat_map(|x| x..x + 2)"); sparts.append(".flat_map(|x| x..x + 2)"); exact = False; klen = None
         elif m == "rev":
             if rev_used or not de or posdep:
                 continue
